@@ -55,3 +55,5 @@ C15_BOUNDARY_OK = {
     )
     for e in ("addstr", "addbyte", "resize")
 }
+
+C13_SIB_EXCEPTIONS = {}
